@@ -189,6 +189,37 @@ func C10(c *Ctx) {
 						}
 					}
 				}
+				// the same list built by appending: empty to begin with, Params().At(i).Type() for i = 2, 3, … while i < Params().Len()
+				if ph, isPhi := f["AdditionalArgs"].(*ssa.Phi); isPhi && !okA {
+					okMake, okApp := false, false
+					for _, e := range ph.Edges {
+						switch x := e.(type) {
+						case *ssa.MakeSlice:
+							okMake = c.O.Of(x.Len).Is("const", "0")
+						case *ssa.Call:
+							if core.CalleeName(&x.Call) != "builtin:append" || len(x.Call.Args) != 2 || x.Call.Args[0] != ssa.Value(ph) {
+								continue
+							}
+							el, el2 := c.varargAt(x.Call.Args[1], 0), c.varargAt(x.Call.Args[1], 1)
+							if el == nil || el2 != nil {
+								continue
+							}
+							at := el.Find(func(s *core.Term) bool {
+								return s.IsCallTo("(*go/types.Tuple).At") && s.Args[0].IsCallTo("(*go/types.Signature).Params")
+							})
+							if at == nil || at.Args[1].Kind != "phi" {
+								continue
+							}
+							iv := at.Args[1]
+							from2 := len(iv.Args) == 2 && iv.Args[0].Is("const", "2") && iv.Args[1].Kind == "binop" && iv.Args[1].Name == "+" && iv.Args[1].Args[1].Is("const", "1")
+							bounded := c.ReachOf(x).Implies(c.M(true, func(t *core.Term) bool {
+								return t.Kind == "binop" && t.Name == "<" && t.Args[0].Kind == "phi" && t.Args[0].String() == iv.String() && isLen("Params")(t.Args[1])
+							}))
+							okApp = from2 && bounded
+						}
+					}
+					okA = okMake && okApp
+				}
 				r.Check("C10-4", k+"AdditionalArgs", c.InstrPos(a), okA, "AdditionalArgs must be make([]Type, Params().Len()-2) with element i = Params().At(i+2).Type()")
 			}
 		}
